@@ -241,7 +241,7 @@ type c06op struct {
 }
 
 func c06Ops(r *rng) []c06op {
-	names := []string{"+++", "++", "!!", "=>", "bar", "mod", "-", "*", "foo", "@", "$", "\\+", "dynamic", "^"}
+	names := []string{"+++", "++", "!!", "=>", "bar", "mod", "-", "*", "foo", "@", "$", "\\+", "dynamic", "^", "e1", "e"}
 	specs := []string{"xfx", "xfy", "yfx", "fy", "fx", "xf", "yf"}
 	var ops []c06op
 	for i, n := 0, r.intn(7); i < n; i++ {
@@ -273,9 +273,24 @@ func runC06(outDir string, seed int64, tier string) {
 		if id%3 == 0 {
 			ops = nil
 		}
+		directed := id < 48
+		if directed {
+			// a number directly in front of an alphanumeric operator whose name continues a float's exponent
+			name := []string{"e1", "e", "e10", "e5x", "E5", "e_"}[id%6]
+			num := []*RT{{K: 'f', F: 1.0}, {K: 'f', F: 1.0e10}, {K: 'f', F: -2.5}, {K: 'i', I: 7}}[id/6%4]
+			if id >= 24 {
+				t = &RT{K: 'c', S: name, Args: []*RT{num}}
+				ops = []c06op{{200, "xf", name}}
+			} else {
+				t = &RT{K: 'c', S: name, Args: []*RT{num, {K: 'i', I: 2}}}
+				ops = []c06op{{700, "xfx", name}}
+			}
+			goals, args, cnt = nil, nil, 0
+			top = t.build(&goals, &args, &cnt)
+		}
 		dq := []string{"codes", "chars", "atom"}[rr.intn(3)]
 		writer := []string{"writeq(T)", "write_canonical(T)", "write_term(T, [quoted(true)])", "write_term(T, [quoted(true), ignore_ops(true)])", "print(T)"}[rr.intn(5)]
-		if writer == "print(T)" {
+		if writer == "print(T)" || directed {
 			writer = "writeq(T)"
 		}
 		var sink bytes.Buffer
@@ -352,6 +367,18 @@ func runC06(outDir string, seed int64, tier string) {
 			sum.Failures = append(sum.Failures, failure{ID: id, Class: "number:text-not-turned-back", Input: desc, Observed: fmt.Sprint(out.Err, out.GoErr), Expected: "the same number"})
 		} else if out.Answers[0]["N"].coq() != out.Answers[0]["M"].coq() {
 			sum.Failures = append(sum.Failures, failure{ID: id, Class: "number:different-number-read-back", Input: desc, Observed: out.Answers[0]["M"].String(), Expected: out.Answers[0]["N"].String()})
+		}
+	}
+	// a code list with an element that is a digit only in its low 32 bits is not the text of a number
+	for i, bad := range []string{"[4294967345]", "[49, 4294967344]", "[49, 1114112]", "[-4294967247]"} {
+		p := prolog.New(nil, nil)
+		out := runQuery(p, 1, []string{"X"}, "number_codes(X, "+bad+") .")
+		sum.Evaluations++
+		id := 1500000 + i
+		desc := map[string]interface{}{"text": "number_codes(X, " + bad + ")."}
+		sum.Cases[fmt.Sprint(id)] = desc
+		if len(out.Answers) != 0 || out.Err == nil {
+			sum.Failures = append(sum.Failures, failure{ID: id, Class: "number:code-list-with-a-non-character-code-accepted", Input: desc, Observed: fmt.Sprint(out.Answers), Expected: "representation_error(character_code)"})
 		}
 	}
 	// quoted atoms: random texts over characters of every kind; what writeq writes is compared with the model's quote
